@@ -177,6 +177,15 @@ class ILoc:
         self.t = t
 
     def sym_subscript(self, ev, idx, n, mod):
+        from .sym import SliceV
+        items = list(idx.items) if isinstance(idx, Tup) else [idx]
+        full = lambda i: isinstance(i, SliceV) and i.lo is None and i.hi is None and i.step is None
+        if items and all(isinstance(i, SliceV) for i in items) and len(items) <= 2 and not all(full(i) for i in items):
+            # df.iloc[a:b, c:d]: a part of the table - its axes are PARTS of the table's axes (other label vectors)
+            rows = items[0]
+            cols = items[1] if len(items) > 1 else SliceV(None, None, None)
+            t = self.t
+            return Table(t.var, t.index if full(rows) else f"{t.index}[{rows!r}]", t.columns if full(cols) else f"{t.columns}[{cols!r}]", dict(t.parsed))
         ln = self.t.values().sym_subscript(ev, idx, n, mod)
         if isinstance(ln, Line1):
             return SeriesV(ln, Axis(ln.along, True), None)
